@@ -7,6 +7,11 @@
 #include <pika/execution_base/any_sender.hpp>
 #include <pika/executors/std_thread_scheduler.hpp>
 #include <pika/latch.hpp>
+#include <pika/semaphore.hpp>
+
+#include <condition_variable>
+#include <deque>
+#include <mutex>
 #include <pika/threading_base/thread_num_tss.hpp>
 
 #include <sys/syscall.h>
@@ -82,6 +87,47 @@ static void check_place(expect const& e, char const* phase)
     }
 }
 
+// ---- plain OS thread that releases semaphores as fast as it can: its wake-ups tend to find the target still 'active'
+// (registered as a waiter, not yet switched out), which takes the helper-task branch of set_thread_state
+static std::mutex g_wq_m;
+static std::condition_variable g_wq_cv;
+static std::deque<std::shared_ptr<pika::counting_semaphore<>>> g_wq;
+static bool g_wq_stop = false;
+static std::atomic<std::uint64_t> g_fast_wakeups{0};
+static void os_waker_loop()
+{
+    for (;;)
+    {
+        std::shared_ptr<pika::counting_semaphore<>> sem;
+        {
+            std::unique_lock<std::mutex> l(g_wq_m);
+            g_wq_cv.wait(l, [] { return g_wq_stop || !g_wq.empty(); });
+            if (g_wq.empty()) return;
+            sem = std::move(g_wq.front());
+            g_wq.pop_front();
+        }
+        sem->release();
+        external_end();
+    }
+}
+static void fast_suspensions(expect const& e, rng& r)
+{
+    int k = 4 + (int) r.below(20);
+    auto sem = std::make_shared<pika::counting_semaphore<>>(0);
+    for (int i = 0; i < k; ++i)
+    {
+        external_begin();
+        {
+            std::lock_guard<std::mutex> l(g_wq_m);
+            g_wq.push_back(sem);
+        }
+        g_wq_cv.notify_one();
+        sem->acquire();
+        g_fast_wakeups++;
+        check_place(e, "after-fast-wakeup");
+    }
+}
+
 // body of a callable: entry check, then some yields and possibly a real suspension (woken from another pool), checking after each
 static void callable_body(expect e, std::uint64_t seed)
 {
@@ -110,6 +156,8 @@ static void callable_body(expect e, std::uint64_t seed)
             check_place(e, "after-suspension-yield");
         }
     }
+    // bursts of suspensions whose wake-up comes immediately from a plain OS thread
+    if (r.chance(1, 4)) fast_suspensions(e, r);
 }
 
 using any_void = ex::unique_any_sender<>;
@@ -275,7 +323,13 @@ int main(int argc, char** argv)
         }
     };
     install_hooks();
-    if (a.str("perturb", "light") == "light") g_perturb.set_all(0.003, 30);
+    if (a.str("perturb", "light") == "light")
+    {
+        g_perturb.set_all(0.003, 30);
+        // widen the window between "registered as a waiter" and "switched out"
+        g_perturb.set(pv::yield_before_switch, 0.15, 60);
+        g_perturb.set(pv::sem_wait, 0.15, 40);
+    }
     report.cases = 1;
     {
         runtime rt(cfg);
@@ -295,6 +349,7 @@ int main(int argc, char** argv)
         }
         // drivers: the main OS thread, tasks on random pools
         std::vector<std::thread> os;
+        std::thread os_waker(os_waker_loop);
         std::atomic<int> drv_done{0};
         std::uint64_t per = pipelines / (drivers + 1) + 1;
         for (unsigned d = 0; d < drivers; ++d)
@@ -319,6 +374,12 @@ int main(int argc, char** argv)
             report.add("pipelines", g_done.load());
             bail(0);
         }
+        {
+            std::lock_guard<std::mutex> l(g_wq_m);
+            g_wq_stop = true;
+        }
+        g_wq_cv.notify_all();
+        os_waker.join();
         pika::wait();
         std::string lay;
         for (auto& p : g_pools) lay += sf("%s:%d:%u ", p.name.c_str(), p.policy, p.size);
@@ -328,6 +389,8 @@ int main(int argc, char** argv)
         report.add("bulk_calls", g_bulk_calls.load());
         report.bit("static_hint_phase", g_hinted_phases.load());
         report.bit("suspension_inside_callable", g_suspensions.load());
+        report.add("fast_os_wakeups", g_fast_wakeups.load());
+        report.bit("wakeup_found_target_active", totals().hits[pv::sts_active_helper]);
         report.bit("std_thread_hop", g_std_thread.load());
         report.bit("bulk_hop", g_bulk_calls.load());
         report.bit("execute", g_executes.load());
